@@ -175,7 +175,7 @@ def oracle(sp, w, m, when, consumed):
     return consumed
 
 
-def h_life(sp, L=3, ids=(1, 2), classes=5, create_sets=8, auto=True, reuse=True, flavour='plain'):
+def h_life(sp, L=3, ids=(1, 2), classes=5, create_sets=8, auto=True, reuse=True, flavour='plain', build=False):
     del LOG[:]
     del INSIDE[:]
     w = World()
@@ -198,6 +198,31 @@ def h_life(sp, L=3, ids=(1, 2), classes=5, create_sets=8, auto=True, reuse=True,
         m.instances.append(inst)
         return inst
 
+    if build:
+        # shape I: a state built through the public API from symbolic choices, possibly with entities awaiting
+        # deletion and with dispatching disabled, then L operations
+        for e in ids:
+            k = sp.choose(len(csets) + 1, 'build%r' % (e,))
+            if k < len(csets):
+                m.begin_op()
+                comps = [T() for T in csets[k]]
+                m.instances.extend(comps)
+                w.create_entity(*comps, entity_id=e)
+                for c in comps:
+                    m.attach(e, c)
+                m.end_op()
+                sp.note('build create_entity(%s, entity_id=%r)' % (', '.join(T.__name__ for T in csets[k]), e))
+        consumed = oracle(sp, w, m, 'after build', consumed)
+        for e in ids:
+            if e in m.ents and sp.flag('build-dead%r' % (e,)):
+                w.delete_entity(e)
+                m.dead.add(e)
+                sp.note('build delete_entity(%r)' % (e,))
+        if sp.flag('build-disabled'):
+            w.dispatch_enabled = False
+            m.enabled = False
+            sp.note('build dispatch_enabled = False')
+            sp.cover('built-disabled')
     for step in range(L):
         op = sp.choose(n_ops, 'op%d' % step)
         when = 'step %d' % step
@@ -281,6 +306,8 @@ def h_life(sp, L=3, ids=(1, 2), classes=5, create_sets=8, auto=True, reuse=True,
                 for e in sorted(m.dead, key=repr):
                     if e in m.ents:
                         sp.cover('process-deletes')
+                        if not m.enabled:
+                            sp.cover('process-deletes-disabled')
                         m.drop_entity(e)
                 m.dead.clear()
                 m.tainted.clear()
@@ -356,11 +383,14 @@ HARNESSES = {
 }
 TIERS = {
     'quick': [('life', dict(L=3)),
+              ('life', dict(L=1, build=True, ids=(1, 2), create_sets=6, auto=False),
+               dict(required=['built-disabled', 'process-deletes', 'process-deletes-disabled', 'remove', 'replace', 'probe'])),
               ('life', dict(L=2, flavour='falsy'), dict(required=['unusual-falsy', 'replace', 'remove', 'probe'])),
               ('life', dict(L=2, flavour='empty'), dict(required=['unusual-empty', 'replace', 'remove', 'probe'])),
               ('life', dict(L=3, flavour='all-equal', ids=(1,), classes=2, create_sets=2, auto=False),
                dict(required=['unusual-all-equal', 'replace', 'remove', 'probe', 'release', 'attach-disabled']))],
     'thorough': [('life', dict(L=4, ids=(1,), classes=5, create_sets=7, auto=True)),
+                 ('life', dict(L=2, build=True, ids=(1, 2), create_sets=8, auto=False)),
                  ('life', dict(L=4, ids=(1, 2), classes=3, create_sets=3, auto=False)),
                  ('life', dict(L=5, ids=(1,), classes=2, create_sets=2, auto=False, reuse=False)),
                  ('life', dict(L=3, flavour='falsy')), ('life', dict(L=3, flavour='empty')),
